@@ -301,6 +301,7 @@ type vRelayConn struct {
 	once   sync.Once
 	wmu    sync.Mutex
 	query  string
+	first  atomic.Value // string: the first message the proxy forwarded on this connection
 	closed int32
 	sent   int64 // bytes written downstream in stream mode
 }
@@ -427,6 +428,9 @@ func (r *vRelay) serve(w http.ResponseWriter, req *http.Request) {
 		if err != nil {
 			return
 		}
+		if c.first.Load() == nil {
+			c.first.Store(string(data))
+		}
 		if mode == "close-after-first" {
 			return
 		}
@@ -477,6 +481,27 @@ func (r *vRelay) conns(key string) []*vRelayConn {
 	r.mu.Lock()
 	defer r.mu.Unlock()
 	return append([]*vRelayConn{}, r.byKey[key]...)
+}
+
+// waitConnFirst: the connection (under any key) whose first message is token.
+func (r *vRelay) waitConnFirst(token string, d time.Duration) *vRelayConn {
+	deadline := time.Now().Add(d)
+	for {
+		r.mu.Lock()
+		for _, cs := range r.byKey {
+			for _, c := range cs {
+				if f, _ := c.first.Load().(string); f == token {
+					r.mu.Unlock()
+					return c
+				}
+			}
+		}
+		r.mu.Unlock()
+		if time.Now().After(deadline) {
+			return nil
+		}
+		time.Sleep(10 * time.Millisecond)
+	}
 }
 
 func (r *vRelay) waitConn(key string, d time.Duration) *vRelayConn {
